@@ -172,10 +172,10 @@ UNITS['channel'] = dict(
         'c06_seq_recv': dict(props=['C06', 'C07', 'C08', 'C10'], auto_obl='C08.NO-PANIC', unwind_obl='C08.FROZEN', **_CH_STUB),
         'c07_drop_channel': dict(props=['C07']),
         'c07_send_sync_bounds': dict(props=['C07']),
-        'c08_frozen_send': dict(props=['C06', 'C07', 'C08', 'C10'], auto_obl='C08.NO-PANIC', unwind_obl='C08.FROZEN', **_CH_STUB),
-        'c08_frozen_recv': dict(props=['C06', 'C07', 'C08', 'C10'], auto_obl='C08.NO-PANIC', unwind_obl='C08.FROZEN', **_CH_STUB),
-        'c08_rg_send_k2': dict(props=['C06', 'C07', 'C08', 'C10'], auto_obl='C08.NO-PANIC', unwind_obl='C08.BOUNDED', **_CH_STUB),
-        'c08_rg_recv_k2': dict(props=['C06', 'C07', 'C08', 'C10'], auto_obl='C08.NO-PANIC', unwind_obl='C08.BOUNDED', **_CH_STUB),
+        'c08_frozen_send': dict(props=['C06', 'C07', 'C08', 'C10', 'C03'], auto_obl='C08.NO-PANIC', unwind_obl='C08.FROZEN', **_CH_STUB),
+        'c08_frozen_recv': dict(props=['C06', 'C07', 'C08', 'C10', 'C03'], auto_obl='C08.NO-PANIC', unwind_obl='C08.FROZEN', **_CH_STUB),
+        'c08_rg_send_k2': dict(props=['C06', 'C07', 'C08', 'C10', 'C03'], auto_obl='C08.NO-PANIC', unwind_obl='C08.BOUNDED', **_CH_STUB),
+        'c08_rg_recv_k2': dict(props=['C06', 'C07', 'C08', 'C10', 'C03'], auto_obl='C08.NO-PANIC', unwind_obl='C08.BOUNDED', **_CH_STUB),
         'c08_rg_send_k4': dict(props=['C06', 'C07', 'C08', 'C10'], tier='thorough', auto_obl='C08.NO-PANIC', unwind_obl='C08.BOUNDED', **_CH_STUB),
         'c08_rg_recv_k4': dict(props=['C06', 'C07', 'C08', 'C10'], tier='thorough', auto_obl='C08.NO-PANIC', unwind_obl='C08.BOUNDED', **_CH_STUB),
     })
@@ -201,12 +201,12 @@ obl('C07.NO-EARLY-DROP', FQ + 'send, recv', 'successful send / recv drop nothing
 obl('C07.TAKE', FQ + 'recv', 'value moved out, cell None afterwards')
 obl('C07.DROP-CHANNEL', FQ + 'drop glue of Channel', 'every stored value dropped exactly once')
 obl('C07.SENDSYNC', FQ + 'unsafe impl Send/Sync', 'bounds T: Send kept (type-checked)')
-obl('C08.FROZEN', FQ + 'send, recv, enqueue, dequeue', 'frozen environment, every invariant state (incl. nested-in-flight indices): all loops terminate within the unwinding bound (complete)')
+obl('C08.FROZEN', FQ + 'send, recv, enqueue, dequeue', 'frozen environment, every invariant state (incl. nested-in-flight indices): all loops terminate within the unwinding bound (complete)', also=['C03'])
 obl('C08.BOUNDED', FQ + 'send, recv', 'with interference before every access and <= K failed CAS: terminates within K+2 iterations', kind='bounded(K=2 quick, 4 thorough failed CAS per call)')
 obl('C08.NO-PANIC', FQ + 'send, recv', 'no panic, overflow, out-of-bounds from any invariant state')
 obl('C08.NO-PANIC-EXPECT', FQ + 'enqueue, recv', 'neither expect("No empty slot available") nor expect("Full slot with nothing in it") can fail (Kani reports both through core::option::expect_failed)', never=True)
 obl('C08.NO-LEAK-INDEX', FQ + 'send, recv', 'on return no index is held')
-obl('C08.RETRY-ONLY-ON-CAS-FAIL', FQ + 'send, recv', 'atomic ops = 1 load + (fails+1) CAS per queue operation: no waiting loop')
+obl('C08.RETRY-ONLY-ON-CAS-FAIL', FQ + 'send, recv', 'atomic ops = 1 load + (fails+1) CAS per queue operation: no waiting loop', also=['C03'])
 _T = L('A1', 'A7', 'A8', 'A10')
 PROPS['C06'] = dict(level='proof', units=['channel', 'channel_priv'], trusted=_T + ['linearizability / per-producer order from C06.ATOMIC + sequential contracts is the lemma L-FIFO (argument in DESIGN.md, not machine-checked)'],
     technique='function contracts + rely/guarantee environment stubs on the real channel.rs, Kani/CBMC',
@@ -288,7 +288,7 @@ UNITS['backend_c12'] = dict(
     scan=[K + 'libc_model.rs'], timeout={'quick': 1500, 'thorough': 3600},
     harnesses={
         'c12_retry_raw': dict(props=['C12'], tier='thorough', kind='bounded', bound='bounded(one representative accepted signal, SIGUSR1, on the real 128-entry table)', panic_map=[(r'Init called multiple times', 'C12.RETRY')]),
-        'c12_add_signal_rejected': dict(props=['C12', 'C14'], expected_panics=r'index out of bounds|assertion failed: signal >= 0|Signal number .* too large|placeholder message'),
+        'c12_add_signal_rejected': dict(props=['C12', 'C14'], expected_panics=r'index out of bounds|assertion failed: signal >= 0|Signal number|out of range|too large|placeholder message'),
     })
 # control-flow harnesses on a scratch copy with the slot table shortened (mechanical rewrite, stated)
 _SMALL = "bounded(slot table shortened from 128 to 4 entries by a mechanical rewrite of `const MAX_SIGNUM` in the scratch copy; same code otherwise)"
@@ -329,14 +329,14 @@ obl('C10.CLEAR', 'exfiltrator/mod.rs: SignalOnly::load', 'Some(sig) iff the slot
 obl('C10.CLEAR-ATOMIC', 'exfiltrator/mod.rs: SignalOnly::load', 'exactly one atomic RMW on the slot, no separate load/store')
 obl('C09.NO-DRAIN-AFTER-SCAN', FB + 'SignalIterator::poll_signal', 'a drain during the call is always followed by a scan from slot 0 before Signal/Pending is reported', kind='bounded(table of 4, concrete callback schedules)')
 obl('C10.INDEX-IS-SIG', FB + 'Pending::next', 'yields the first marked slot >= position as its own index')
-obl('C10.ADVANCE-ON-NONE', FB + 'Pending::next', 'position advances only past slots that reported None')
+obl('C10.ADVANCE-ON-NONE', FB + 'Pending::next', 'position advances only past slots that reported None (a slot that queues several deliveries is re-examined until it is empty)', also=['C09'])
 obl('C10.POLL-REAL', FB + 'SignalIterator::poll_signal', 'Signal(s) only for a marked slot s')
 obl('C11.OPEN-INITIALLY', FB + 'Handle::is_closed', 'new instance is open')
 obl('C11.STICKY', FB + 'Handle::close', 'only true is ever stored to the closed flag, SeqCst; all handles see it')
 obl('C11.CLOSE-THEN-WAKE', FB + 'Handle::close', 'flag store precedes one non-blocking wake-up write')
 obl('C11.NO-BLOCK-AFTER-CLOSE', FB + 'SignalDelivery::poll_pending', 'callback skipped only if closed was seen; then Ok(None) at once')
 obl('C11.ONE-CALLBACK', FB + 'SignalDelivery::poll_pending', 'callback consulted at most once')
-obl('C11.PENDING-ONLY-IF-ARMED', FB + 'SignalIterator::poll_signal', 'Pending => callback consulted during this call and last answer Ok(false); close() may land between any two loads')
+obl('C11.PENDING-ONLY-IF-ARMED', FB + 'SignalIterator::poll_signal', 'Pending => callback consulted during this call and last answer Ok(false); close() may land between any two loads', also=['C09'])
 obl('C11.CLOSED-ONLY-IF-CLOSED', FB + 'SignalIterator::poll_signal', 'Closed => the flag was seen true')
 obl('C12.ERR-PASSTHROUGH', FB + 'Handle::add_signal', 'Err iff registration failed')
 obl('C12.REGISTER-ONCE', FB + 'Handle::add_signal', 'one registration attempt through the checked registry entry point, for the requested number', also=['C14'])
@@ -356,8 +356,8 @@ PROPS['C10'] = dict(level='proof', units=['backend', 'backend_small', 'channel']
 PROPS['C11'] = dict(level='proof', units=['backend', 'backend_small'], trusted=_TI + ['a blocked reader returns because close() writes a wake-up byte (kernel semantics)', 'callback answers true at most once per call in the harness (bounded)'],
     explanation='closed flag havoc-ed monotonically before every load (close() on another thread at any instant); sticky flag, close-then-wake, no callback after closed, Pending only if armed.')
 obl('C12.CTOR-CLEAN', FB + 'SignalDelivery::with_pipe', 'first refused signal => Err; earlier registrations unregistered; (native) pipe descriptors closed')
-obl('C12.SURVIVES-PANIC', FB + 'Handle::add_signal', 'after an addition rejected by panic (9 representative inputs): later add_signal Ok, re-add no-op, watched signals still delivered', kind='bounded(native execution, 9 inputs: -1, MIN, 128, MAX, KILL, STOP, ILL, FPE, SEGV)')
-obl('C12.DROP-NO-PANIC', FB + 'DeliveryState::drop', 'drop after a rejected addition does not panic', kind='bounded(native execution, same 9 inputs)')
+obl('C12.SURVIVES-PANIC', FB + 'Handle::add_signal', 'after an addition rejected by panic (9 representative inputs): later add_signal Ok, re-add no-op, watched signals still delivered', kind='bounded(native execution, 9 inputs: -1, MIN, 128, MAX, KILL, STOP, ILL, FPE, SEGV)', also=['C14'])
+obl('C12.DROP-NO-PANIC', FB + 'DeliveryState::drop', 'drop after a rejected addition does not panic, removes every registration and closes the pipe', kind='bounded(native execution, same 9 inputs)', also=['C14'])
 obl('C12.RETRY-NATIVE', FB + 'Handle::add_signal + WithRawSiginfo::init', 'real OS refusal (signal 100) twice in a row returns Err twice', kind='bounded(native execution, 1 input)')
 UNITS['native_c12'] = dict(name='c12_survive', engine='static', module='native_unit', entry='run_native', source='/verif/native/c12_survive.rs',
                            deps='libc = "0.2"\nsignal-hook = { path = ".." }\n')
@@ -390,7 +390,7 @@ UNITS['registry'] = dict(
     name='registry', engine='kani', crate='signal-hook-registry', inject=[('signal-hook-registry/src/lib.rs', K + 'registry.rs'), ('signal-hook-registry/src/half_lock.rs', K + 'half_lock_contract.rs', 'verif_contract', 'pub(crate)')], flags=FFI,
     rewrite=_MAPRW, scan=[K + 'libc_model.rs'], timeout={'quick': 1500, 'thorough': 3600},
     harnesses={
-        'c04_prev_execute': dict(props=['C04']),
+        'c04_prev_execute': dict(props=['C04'], auto_obl='C04.EXEC-SAFE'),
         'c05_slot_new': dict(props=['C05', 'C04', 'C14']),
         'c14_registry_check_first': dict(props=['C14'], expected_panics=r'Attempted to register forbidden signal|placeholder message|assertion failed'),
         'c14_forbidden_list': dict(props=['C14']),
@@ -407,6 +407,7 @@ UNITS['registry'] = dict(
     })
 FR = 'registry lib.rs: '
 obl('C04.EXEC-NONE', FR + 'Prev::execute', 'SIG_DFL / SIG_IGN / 0: nothing is called (all sa_flags)')
+obl('C04.EXEC-SAFE', FR + 'Prev::execute', 'never calls through anything but a real handler address; no panic (all verifier-generated checks inside execute hold)')
 obl('C04.EXEC-ONE', FR + 'Prev::execute', 'handler without SA_SIGINFO: called once with (sig)')
 obl('C04.EXEC-THREE', FR + 'Prev::execute', 'handler with SA_SIGINFO: called once with the same (sig, info, ctx) pointers')
 obl('C04.PREV-FROM-SWAP', FR + 'Slot::new, register_unchecked_impl', 'slot.prev is the disposition returned by the installing sigaction call')
@@ -456,7 +457,7 @@ PROPS['C04'] = dict(level='other', units=['registry'], trusted=_TR,
 PROPS['C05'] = dict(level='other', units=['registry'], trusted=_TR,
     technique='per-operation function contracts with whole-view postconditions on register/unregister/unregister_signal + complete contract of Slot::new, Kani/CBMC',
     explanation='Each operation, from an arbitrary bounded-shape state satisfying the invariant, changes the view exactly as the model says (ids fresh and increasing, only the addressed action removed, slots never removed, handler installed once with SA_RESTART|SA_SIGINFO).')
-PROPS['C14'] = dict(level='proof', units=['registry', 'flag', 'pipe', 'backend_c12', 'backend_small_c12'], trusted=_TR + L('A12'),
+PROPS['C14'] = dict(level='proof', units=['registry', 'flag', 'pipe', 'backend_c12', 'backend_small_c12', 'native_c12'], trusted=_TR + L('A12'),
     technique='checks-before-effects contracts on every checked entry point over all c_int, Kani/CBMC',
     explanation='Registry entry points refuse forbidden numbers before touching global state; front-ends (flags, pipe, iterator) delegate to them with the same number (C15.SET-SIG, C13.REGISTER-ONCE, C12.REGISTER-ONCE/C14.ITER-*); OS refusals propagate without publishing.')
 
@@ -474,7 +475,7 @@ PROPS['C05']['units'] = ['registry', 'registry_hist']
 PROPS['C04']['units'] = ['registry']
 PROPS['C04']['units_thorough'] = ['registry_hist']
 
-PROPS['C03'] = dict(level='other', units=['half_lock', 'registry', 'pipe', 'flag', 'backend'],
+PROPS['C03'] = dict(level='other', units=['half_lock', 'registry', 'pipe', 'flag', 'backend', 'channel'],
     trusted=_TR + L('A1', 'A7') + ['"never allocates or frees heap memory" is only covered as "never drops a last reference" (C03.NO-FREE) - a raw allocation inside a delivery cannot be observed: Kani implements the allocator in its C runtime and it cannot be stubbed', 'bounded steps "wherever every other thread is paused": the read side takes no value another thread must change (C03.READ-WAITFREE, C03.WAIT-FREE); validity of the snapshot it dereferences is C01'],
     technique='frame/trace contracts on the dispatcher and every built-in action (no lock, no wait, no last-reference drop, reader counts balanced, exactly one non-blocking system call), Kani/CBMC',
     explanation='The dispatcher, from an arbitrary bounded-shape registry state and arbitrary counter values, takes no lock, never yields/spins, terminates within the unwinding bound, drops no last reference and leaves the reader counts balanced; each built-in action is exactly its one atomic store / one non-blocking system call.')
